@@ -63,6 +63,13 @@ class RealRestoreWriteFileSystem(RestoreWriteFileSystem):
         return fs.mkdirs(path)
 
     def move(self, path, dest):
+        # only reached when dest is free or may be overwritten: take a
+        # non-directory out of the way first. shutil.move would enter a
+        # symlink to a directory, write through a symlink to a file and
+        # refuse to put a directory (or a symlink) in the place of a file
+        if os.path.islink(dest) or (os.path.lexists(dest)
+                                    and not os.path.isdir(dest)):
+            os.unlink(dest)
         return fs.move(path, dest)
 
     def remove_file(self, path):
